@@ -152,13 +152,17 @@ prop("C08", level="other",
      bounded_parts=["battery::C08", "bounded::C08"])
 prop("C09", level="other",
      explanation="proved: AbstractDeme.centroid returns the mean of the deme's *current* population on every call (no stale value; numpy.mean "
-                 "enters as the uninterpreted function MEANG of the population). bounded: the distance clause - FarEnough / NBC_FarEnough on random "
-                 "sibling layouts (thresholds hit exactly, active / inactive siblings); centroid == mean for every deme at every metaepoch "
-                 "boundary of the scenario battery.",
-     level_text="centroid accessor proved; the distance clause needs the position of a deme in the filtered sibling list, which E-matching does "
-                "not find through the comprehension: bounded stand-in", level_note=BOUNDED_NOTE,
-     assumptions=["numpy.mean / numpy.linalg.norm are deterministic functions of their arguments"],
-     undecided_subclauses=["every accepted sprout is farther than the threshold from every considered deme (stated, not discharged)"],
+                 "enters as the uninterpreted function MEANG of the population); FarEnough.__call__ and NBC_FarEnough.__call__: every candidate "
+                 "they keep is farther than the threshold (min_distance, or factor x the parent's mean nearest-better distance) from the "
+                 "current centroid of every deme of the target level that the filter considers (active ones; for NBC_FarEnough all unless "
+                 "check_only_active) - nested loop invariants over the filtered sibling list. bounded: the same filters on random sibling "
+                 "layouts (thresholds hit exactly), which also exercises the norm helper; centroid == mean for every deme at every "
+                 "metaepoch boundary of the scenario battery.",
+     level_text="centroid accessor and the distance clause of both filters proved; the norm comparison helpers (_is_far_enough, "
+                "_is_nbc_far_enough: numpy.linalg.norm) have trusted value contracts and are covered by the bounded stand-in only",
+     level_note=BOUNDED_NOTE,
+     assumptions=["numpy.mean / numpy.linalg.norm are deterministic functions of their arguments (uninterpreted MEANG / DIST)"],
+     undecided_subclauses=["the arithmetic inside the norm helpers"],
      bounded_parts=["battery::C09", "bounded::C09"])
 prop("C10", level="other",
      explanation="proved: the abstract generator contract (candidates only from the current populations of active non-leaf demes of the tree) "
